@@ -32,7 +32,7 @@ def row_key(row, cols, geom_cols):
     return json.dumps(d, sort_keys=True)
 
 
-def run_case(chk, r, kind, els, pts, active, in_parts, npart, p, tag, coalesce=False, pruned_read=False):
+def run_case(chk, r, kind, els, pts, active, in_parts, npart, p, tag, coalesce=False, pruned_read=False, shuffle=None):
     import dask
     import dask.dataframe as dd
     from spatialpandas import GeoDataFrame
@@ -40,7 +40,7 @@ def run_case(chk, r, kind, els, pts, active, in_parts, npart, p, tag, coalesce=F
     df = GeoDataFrame({"v": list(range(n)), "s": [f"t{i % 3}" for i in range(n)], "geometry": geo.make_array(kind, els, "float64"),
                        "anchor": geo.make_array("point", pts, "float64")}).set_geometry(active)
     rep = dict(api="pack_partitions", kind=kind, elements=els, points=pts, active=active, input_partitions=in_parts, npartitions=npart, p=p,
-               coalesced=coalesce, pruned_read=pruned_read)
+               coalesced=coalesce, pruned_read=pruned_read, shuffle=shuffle)
     ddf = dd.from_pandas(df, npartitions=in_parts)
     if coalesce and in_parts > 1:
         ddf = ddf.repartition(npartitions=max(1, in_parts // 2))
@@ -70,8 +70,13 @@ def run_case(chk, r, kind, els, pts, active, in_parts, npart, p, tag, coalesce=F
         finally:
             pass
     try:
-        packed = ddf.pack_partitions(npartitions=npart, p=p)
+        packed = ddf.pack_partitions(npartitions=npart, p=p) if shuffle is None else ddf.pack_partitions(npartitions=npart, p=p, shuffle=shuffle)
         parts = list(dask.compute(*packed.to_delayed(), scheduler="synchronous"))
+        from spatialpandas import GeoDataFrame as _G
+        if any(not isinstance(p_, _G) or getattr(p_, "_geometry", None) != active for p_ in parts):
+            chk.violation(f"pack_partitions/result-is-not-a-geo-frame-with-the-active-column/shuffle={shuffle or 'default'}",
+                          dict(rep, partition_types=[type(p_).__name__ for p_ in parts], partition_active=[str(getattr(p_, "_geometry", None)) for p_ in parts]), size=n)
+            return
     except Exception as e:  # noqa: BLE001
         distinct = len(set(int(x) for x in df[active].array.hilbert_distance(p=p)))
         if distinct < npart or "divisions" in repr(e).lower() or "unique" in repr(e).lower():
@@ -207,6 +212,15 @@ def _run_cases(chk, tier):
                                                                                      active=active, npartitions=npart, p=p), size=n)
         if k < 3:
             chk.sample(dict(kind=kind, n=n, active=active, npartitions=npart, p=p, elements=els[:2], points=pts[:4]), cap=5)
+    # the documented values of the shuffle argument
+    for k, sh in enumerate(("disk", "tasks", "disk")):
+        kind = geo.KINDS[(2 * k + 1) % 7]
+        n = 14
+        els = random_family(kind, r, n, 8)
+        cells = r.sample([(x, y) for x in range(9) for y in range(9) if (x, y) not in ((0, 0), (8, 8))], n - 2)
+        pts = [[0, 0], [8, 8]] + [list(c) for c in cells]
+        run_case(chk, r, kind, els, pts, ("anchor", "geometry")[k % 2], 3, r.randint(1, 3), r.choice((5, 10)), "shuffle-argument", shuffle=sh)
+        chk.count("shuffle:" + sh)
     # an input partition without any located geometry in the active column (all missing): the curve still spans the located rows
     for k in range(4 if tier == "quick" else 30):
         kind = geo.KINDS[(3 * k) % 7]
